@@ -14,6 +14,7 @@ Real-code driver + oracle + correspondence with the Lean model of the instance c
   histories with alternating precisions and tensor shapes on one shared object against fresh
   objects; the MFT's `matrices_dtype` memo state is compared with the model's memo cell.
 """
+import json
 import numpy as np
 
 from harness.common import MachineryError
@@ -410,6 +411,7 @@ class Hist:
         self.expect = [None]     # per line: None or dict of real observations
         self.counts = {}
         self.pending_setter = None
+        self.cell_prev = {}      # instance index -> the transfer-function object its FourierFilter held after its last use
 
     def count(self, k):
         self.counts[k] = self.counts.get(k, 0) + 1
@@ -483,7 +485,7 @@ class Hist:
             ro = self.G(fresh.get_output_grid(ii, wl))
         return 'C05 req %s %s %s %s %s' % (self.G(gi), self.G(go), a, ri, ro)
 
-    def observe(self, line, status, nhanded0):
+    def observe(self, line, status, nhanded0, dt=None):
         obs = {'status': status}
         if line is None:
             return
@@ -501,6 +503,23 @@ class Hist:
                 self.state_issue('cannot interpret the instance handed out: %r' % (e,))
         if status == 'ok':
             obs.update(self.real_state())
+        if status == 'ok' and dt is not None and len(self.handed) > nhanded0 and 'key' in obs:
+            # instances that own a memo cell (the FourierFilter of a Fresnel / angular-spectrum instance): the propagation is
+            # sent as `reqc` (Cache.stepC with Cache.memoContent); the dtype the cell of the instance handed out holds now
+            # and whether this propagation rebuilt it are compared with the model's heap
+            ff = getattr(self.handed[nhanded0], 'fourier_filter', None)
+            if ff is not None:
+                try:
+                    tf = ff._transfer_function
+                    idx = self.inst_id(self.handed[nhanded0])
+                    obs['slot'] = '-' if tf is None else str(dt_code(tf.dtype))
+                    obs['rebuilt'] = '0' if (idx in self.cell_prev and self.cell_prev[idx] is tf) else '1'
+                    self.cell_prev[idx] = tf
+                    obs['res'] = '%s/%s/%d' % (obs['key'], obs['ver'], dt_code(dt))
+                    line = 'C05 reqc' + line[len('C05 req'):] + ' %d' % dt_code(dt)
+                    self.count('reqc:rebuilt=' + obs['rebuilt'])
+                except Exception as e:
+                    self.state_issue('cannot read the memo cell of the instance handed out: %r' % (e,))
         self.lines.append(line)
         self.expect.append(obs)
 
@@ -615,7 +634,7 @@ class Hist:
                 if d:
                     self.fail('result-differs', '%s on grid #%d at wavelength %r: %s' % (kind, g, wl, d), step)
                 self.pending_setter = None
-                self.observe(line, 'ok', n0)
+                self.observe(line, 'ok', n0, dt=dt)
                 if d:
                     return
             elif kind == 'both':
@@ -833,7 +852,46 @@ def fourier_objects():
         return hp.Field(np.exp(-0.5j * (grid.x**2 + grid.y**2)) / (1 + 0.125 * grid.x**2), grid)
     O['FourierFilter q2'] = lambda: hp.FourierFilter(P, tf, 2)
     O['FourierFilter q1'] = lambda: hp.FourierFilter(P2, tf, 1)
-    return O
+    # per-axis oversampling / field of view (slit-like Fourier planes: more samples than the input along one axis, fewer
+    # along the other), both shift implementations
+    for em in (False, True):
+        O[gen_fft_name([8, 8], [2, 2], [0.25, 1], em)] = None
+        O[gen_fft_name([8, 8], [1, 4], [0.5, 0.5], em)] = None
+        O[gen_fft_name([6, 9], [3, 1], [1, 0.5], em)] = None
+    return _FourierObjects(O)
+
+
+def gen_fft_name(dims, q, fov, em):
+    js = lambda v: json.dumps(list(v), separators=(',', ':'))
+    return 'FFT gen dims=%s q=%s fov=%s emulate=%d' % (js(dims), js(q), js(fov), int(em))
+
+
+class _FourierObjects(dict):
+    """Constructors by name; a name produced by gen_fft_name carries its own parameters (so a replay file needs no table)."""
+
+    def __getitem__(self, name):
+        if name.startswith('FFT gen '):
+            return lambda: self.build(name)
+        return dict.__getitem__(self, name)
+
+    @staticmethod
+    def build(name):
+        import hcipy as hp
+        kv = dict(t.split('=', 1) for t in name.split(' ')[2:])
+        dims, q, fov = json.loads(kv['dims']), json.loads(kv['q']), json.loads(kv['fov'])
+        grid = hp.make_pupil_grid(dims, [1.0, 1.0 * dims[1] / dims[0]]).shifted([0.0, 0.125])
+        return hp.FastFourierTransform(grid, q, fov, 0, bool(int(kv['emulate'])))
+
+
+def random_fft_names(rng, n):
+    qs, fovs = [1, 2, 3, 4, 1.5], [1, 0.5, 0.25, 0.75]
+    out = []
+    for _ in range(n):
+        dims = [int(rng.integers(3, 9)), int(rng.integers(3, 9))]
+        q = [qs[int(rng.integers(0, len(qs)))] for _ in range(2)]
+        fov = [fovs[int(rng.integers(0, len(fovs)))] for _ in range(2)]
+        out.append(gen_fft_name(dims, q, fov, bool(rng.integers(0, 2))))
+    return out
 
 
 FDT = ['complex128', 'complex64', 'float64', 'float32']
@@ -852,14 +910,19 @@ def fourier_field(obj, backward, dtype, tshape, seed):
     return hp.Field(arr.astype(dtype), grid)
 
 
-def run_fourier(name, ops):
-    """ops: [backward(0/1), dtype, tshape, seed].  Returns (failure or None, memo observations)."""
+def run_fourier(name, ops, watch_out=None):
+    """ops: [backward(0/1), dtype, tshape, seed].  Returns (failure or None, memo observations); the state-by-state
+    conversation for FourierFilter / ZoomFastFourierTransform is left in `watch_out` (a list) when given."""
     O = fourier_objects()
     memo = []
     try:
         shared = O[name]()
     except Exception as e:
         return 'RAISES %s: constructing the object raised %r' % (type(e).__name__, e), memo
+    watch = {'FourierFilter': FilterWatch, 'ZoomFastFourierTransform': ZoomWatch}.get(type(shared).__name__)
+    watch = watch() if watch else None
+    if watch is not None and watch_out is not None:
+        watch_out.append(watch)
     for step, (back, dt, ts, seed) in enumerate(ops):
         try:
             fresh = O[name]()
@@ -877,6 +940,10 @@ def run_fourier(name, ops):
             r2 = (fresh.backward if back else fresh.forward)(f2)
         except Exception as e:
             e2 = e
+        if e1 is None and isinstance(watch, FilterWatch):
+            watch.after(shared, f1)
+        elif e1 is None and isinstance(watch, ZoomWatch):
+            watch.after(shared, back, dt)
         if e1 is not None or e2 is not None:
             if type(e1) is not type(e2):
                 return ('step %d: shared object %r, fresh object %r' % (step, e1, e2)), memo
@@ -1022,6 +1089,546 @@ def replay_wavelengths(case):
     return ok
 
 
+
+# ---------------------------------------------------------------------------------------------
+# the second cache: make_agnostic_optical_element (model: lean/HcipyVerif/Model/CacheDecorator.lean)
+
+DECO_KNOWN = 'history-dependent make_agnostic_optical_element backward-after-forward'
+DECO_NAMES = ['GW-mag', 'GW-lens', 'G-only', 'W-only', 'none']
+
+
+def deco_pool():
+    import hcipy as hp
+    return [hp.make_pupil_grid(4, 1.0), hp.make_pupil_grid(4, 1.5), hp.make_pupil_grid(4, 1.0).shifted([0.25, -0.125]),
+            hp.make_pupil_grid(6, 1.0), hp.make_pupil_grid([4, 6], [1.0, 1.5]), hp.make_pupil_grid(6, 2.5)]
+
+
+def deco_class(name, num):
+    """(decorated class, constructor kwargs, grid_dep, wl_dep, out_of(grid)) for one of DECO_NAMES.  The wrapped
+    ("gnostic") classes are small elements that need their input grid and/or wavelength at construction."""
+    import warnings
+    import hcipy as hp
+
+    def out_mag(grid):
+        return grid.scaled(2)
+
+    def out_lens(grid):
+        return hp.make_pupil_grid(grid.dims, 3.0)        # many input grids share one output grid
+
+    def gain(wavelength):
+        return 1.0 + 0.5 * wavelength
+
+    class Base(hp.OpticalElement):
+        def setup(self, input_grid, wavelength, gain, out):
+            self.made_for = (input_grid, wavelength)
+            self.input_grid = input_grid
+            self.output_grid = None if input_grid is None else out(input_grid)
+            ph = 0.0 if input_grid is None else 0.5 * input_grid.x + 0.25 * input_grid.y**2
+            self.apod = gain * np.exp(1j * ph * (1.0 if wavelength is None else wavelength))
+
+        def forward(self, wf):
+            w = wf.copy()
+            w.electric_field = hp.Field(np.asarray(wf.electric_field) * self.apod,
+                                        wf.electric_field.grid if self.output_grid is None else self.output_grid)
+            return w
+
+        def backward(self, wf):
+            w = wf.copy()
+            w.electric_field = hp.Field(np.asarray(wf.electric_field) * np.conj(self.apod),
+                                        wf.electric_field.grid if self.input_grid is None else self.input_grid)
+            return w
+
+    if name in ('GW-mag', 'GW-lens'):
+        out = out_mag if name == 'GW-mag' else out_lens
+
+        class Gnostic(Base):
+            def __init__(self, input_grid, wavelength, gain):
+                self.setup(input_grid, wavelength, gain, out)
+        args, gd, wd, kw = (None, ['gain']), True, True, {'gain': gain}
+    elif name == 'G-only':
+        out = out_mag
+
+        class Gnostic(Base):
+            def __init__(self, input_grid, gain):
+                self.setup(input_grid, None, gain, out)
+        args, gd, wd, kw = (None, None), True, False, {'gain': 1.5}
+    elif name == 'W-only':
+        out = None
+
+        class Gnostic(Base):
+            def __init__(self, wavelength, gain):
+                self.setup(None, wavelength, gain, None)
+        args, gd, wd, kw = (None, ['gain']), False, True, {'gain': gain}
+    else:
+        out = None
+
+        class Gnostic(Base):
+            def __init__(self, gain):
+                self.setup(None, None, gain, None)
+        args, gd, wd, kw = (None, None), False, False, {'gain': 1.5}
+    with warnings.catch_warnings():
+        warnings.simplefilter('ignore')
+        cls = hp.make_agnostic_optical_element(args[0], args[1], num_in_cache=num)(Gnostic)
+    return cls, Gnostic, kw, gd, wd, out
+
+
+def deco_field(grid, wl, seed):
+    import hcipy as hp
+    r = np.random.default_rng(seed)
+    arr = r.integers(-8, 9, size=grid.size) / 8.0 + 1j * r.integers(-8, 9, size=grid.size) / 8.0
+    return hp.Wavefront(hp.Field(arr, grid), wl)
+
+
+def run_deco(case):
+    """Runs a history on one shared decorated element.  ops: ['fwd', j, w, seed] | ['bwd', j, w, seed] (backward on
+    pool grid j) | ['bwdout', j, w, seed] (backward on the output grid of the element for pool grid j) |
+    ['get', i|None, o|None, w|None] (get_instance with pool grids).  Returns (bad, lines, expect, issues, counts)
+    with bad = [(key, what, step)]."""
+    name, num = case['deco'], int(case['num'])
+    cls, Gnostic, kw, gd, wd, out_of = deco_class(name, num)
+    pool = deco_pool()
+    outs = [None if out_of is None else out_of(g) for g in pool]
+    bad, issues, counts = [], [], {}
+    lines = ['C05 dnew %d %d %d' % (gd, wd, num)]
+    expect = [None]
+    shared = cls(**kw)
+    handed = []
+    orig = shared.get_instance
+
+    def rec(*a, **k):
+        r = orig(*a, **k)
+        handed.append(r)
+        return r
+    shared.get_instance = rec
+    insts = []
+    wid = {}
+
+    def inst_id(v):
+        for k, x in enumerate(insts):
+            if x is v:
+                return k
+        insts.append(v)
+        return len(insts) - 1
+
+    def gname(g):
+        if g is None:
+            return '-'
+        for j, x in enumerate(pool):
+            if x == g:
+                return str(j)
+        for j, x in enumerate(outs):
+            if x is not None and x == g:
+                return str(100 + j)
+        return '?'
+
+    def wname(k):
+        if k is None:
+            return '-'
+        if k not in wid:
+            wid[k] = len(wid)
+        return str(wid[k])
+
+    def key_name(k):
+        k = tuple(k)
+        side, g, w = '-', None, None
+        if gd:
+            if len(k) < 2 or k[0] not in ('input', 'output'):
+                raise ValueError('unexpected cache key %r' % (k,))
+            side, g, k = ('I' if k[0] == 'input' else 'O'), k[1], k[2:]
+        if wd:
+            if len(k) != 1:
+                raise ValueError('unexpected cache key tail %r' % (k,))
+            w, k = k[0], ()
+        if k:
+            raise ValueError('unexpected cache key tail %r' % (k,))
+        return '%s%s,%s' % (side if gd else '', gname(g) if gd else '-', wname(w))
+
+    def real_state():
+        return ';'.join('%s:%d' % (key_name(k), inst_id(v)) for k, v in shared._cache.items())
+
+    forwarded = []          # (input grid, wavelength key) of earlier accepted requests without output grid
+    for step, op in enumerate(case['ops']):
+        kind = op[0]
+        counts['deco-op:' + kind] = counts.get('deco-op:' + kind, 0) + 1
+        if kind == 'get':
+            gi = None if op[1] is None else pool[op[1]]
+            go = None if op[2] is None else pool[op[2]]
+            wl = None if op[3] is None else WLS[op[3]]
+            call = lambda el: el.get_instance(gi, go, wl)
+            wf = None
+        else:
+            j, wl = int(op[1]), WLS[int(op[2])]
+            grid = outs[j] if (kind == 'bwdout' and outs[j] is not None) else pool[j]
+            gi, go = (grid, None) if kind == 'fwd' else (None, grid)
+            wf = deco_field(grid, wl, int(op[3]))
+            call = (lambda el: el.forward(wf)) if kind == 'fwd' else (lambda el: el.backward(wf))
+        n0 = len(handed)
+        r1 = e1 = r2 = e2 = None
+        try:
+            r1 = call(shared)
+        except Exception as e:
+            e1 = e
+        fresh = cls(**kw)
+        try:
+            r2 = call(fresh)
+        except Exception as e:
+            e2 = e
+        # ---- oracle: the shared element against a freshly constructed one
+        tag = 'make_agnostic_optical_element'
+        if e1 is None and e2 is None:
+            d = None if kind == 'get' else compare_wavefronts(r1, r2, 1e-9)
+            if kind == 'get' and (r1.made_for[1] != r2.made_for[1] or not (
+                    (r1.made_for[0] is None and r2.made_for[0] is None) or r1.made_for[0] == r2.made_for[0])):
+                d = 'the element handed out was made for another grid or wavelength'
+            if d:
+                bad.append(('history-dependent-forward ' + tag, '%s step %d %r: %s' % (name, step, op, d), step))
+        elif e1 is not None and e2 is not None:
+            counts['deco-both-raise:' + type(e1).__name__] = counts.get('deco-both-raise:' + type(e1).__name__, 0) + 1
+            if type(e1) is not type(e2):
+                bad.append(('history-dependent-exception ' + tag, '%s step %d %r: shared raises %r, fresh raises %r' % (
+                    name, step, op, e1, e2), step))
+        elif e1 is None:
+            if go is not None and isinstance(e2, RuntimeError) and 'Output grid is not known' in str(e2):
+                bad.append((DECO_KNOWN, '%s step %d %r: the shared element answers the backward request, a freshly constructed '
+                            'one raises %r' % (name, step, op, e2), step))
+                # what it may answer with (theorem decorator_backward_answer): an element built by an earlier forward
+                # request at this wavelength whose output grid is the requested grid
+                if wf is not None:
+                    ok = False
+                    for (a, wk) in forwarded:
+                        if (not wd or wk == wl_key(wl)) and (not gd or (a is not None and out_of(a) == go)):
+                            ref = Gnostic(**dict(kw, **({'input_grid': a} if gd else {}), **({'wavelength': wl} if wd else {}),
+                                                 gain=(kw['gain'](wl) if callable(kw['gain']) else kw['gain']))).backward(wf)
+                            if compare_wavefronts(r1, ref, 1e-9) is None:
+                                ok = True
+                                break
+                    if not ok:
+                        bad.append(('decorator-backward-wrong-instance ' + tag, '%s step %d %r: the backward result is not that of any '
+                                    'element built by an earlier forward request with this output grid and wavelength' % (name, step, op), step))
+            else:
+                bad.append(('history-dependent-forward ' + tag, '%s step %d %r: shared element answers, fresh raises %r' % (
+                    name, step, op, e2), step))
+        else:
+            bad.append(('history-dependent-forward ' + tag, '%s step %d %r: shared element raises %r, fresh answers' % (
+                name, step, op, e1), step))
+        if go is None and e1 is None:        # an accepted request without output grid may have built an element
+            forwarded.append((gi, None if wl is None else wl_key(wl)))
+        # ---- correspondence with the model (given up for this history once the private state cannot be read;
+        #      the oracle keeps running)
+        if issues:
+            continue
+        try:
+            i_name = '-' if gi is None else gname(gi)
+            o_name = '-' if go is None else gname(go)
+            w_name = '-' if wl is None else wname(wl_key(wl))
+            out_name = '-'
+            if gi is not None and out_of is not None:
+                out_name = gname(out_of(gi))
+            if '?' in (i_name, o_name, out_name):
+                raise ValueError('grid without a name')
+            if e1 is None:
+                v = handed[-1] if len(handed) > n0 else None
+                if v is None:
+                    raise ValueError('no element was handed out')
+                mi = '-' if not gd else gname(v.made_for[0])
+                mw = '-' if not wd else wname(wl_key(v.made_for[1]))
+                exp = 'ok id=%d inst=%s,%s cache=%s' % (inst_id(v), mi, mw, real_state())
+            elif isinstance(e1, ValueError):
+                exp = 'err value'
+            elif isinstance(e1, RuntimeError):
+                exp = 'err runtime'
+            elif isinstance(e1, KeyError):
+                exp = 'err key'
+            else:
+                raise ValueError('unexpected exception %r' % (e1,))
+            lines.append('C05 dreq %s %s %s %s' % (i_name, o_name, w_name, out_name))
+            expect.append(exp)
+        except Exception as e:
+            issues.append('step %d: %r' % (step, e))
+    return bad, lines, expect, issues, counts
+
+
+def deco_directed():
+    D = []
+    # the history of theorem decorator_counterexample: forward on grid 1, backward on that element's output grid
+    D.append({'deco': 'GW-mag', 'num': 50, 'ops': [['fwd', 1, 0, 11], ['bwdout', 1, 0, 12]]})
+    D.append({'deco': 'GW-mag', 'num': 50, 'ops': [['bwdout', 1, 0, 12], ['fwd', 1, 0, 11], ['bwdout', 1, 0, 12], ['bwdout', 1, 2, 13]]})
+    D.append({'deco': 'W-only', 'num': 2, 'ops': [['bwd', 0, 0, 1], ['fwd', 0, 0, 2], ['bwd', 3, 0, 3], ['bwd', 3, 1, 3]]})
+    D.append({'deco': 'none', 'num': 1, 'ops': [['bwd', 0, 0, 1], ['fwd', 0, 0, 2], ['bwd', 3, 2, 3], ['fwd', 4, 3, 3]]})
+    # two input grids share an output grid: the 'output' entry is overwritten in place (theorem decorator_cache_exceeds_bound)
+    D.append({'deco': 'GW-lens', 'num': 2, 'ops': [['fwd', 0, 0, 1], ['fwd', 1, 0, 2], ['fwd', 3, 0, 3], ['fwd', 4, 0, 4],
+                                                  ['fwd', 5, 0, 5], ['bwdout', 0, 0, 6], ['fwd', 0, 0, 7], ['bwdout', 3, 0, 8]]})
+    D.append({'deco': 'GW-mag', 'num': 1, 'ops': [['fwd', 0, 0, 1], ['fwd', 1, 0, 2], ['bwdout', 0, 0, 3], ['fwd', 0, 0, 4], ['bwdout', 0, 0, 5]]})
+    D.append({'deco': 'G-only', 'num': 2, 'ops': [['get', None, None, 0], ['get', 0, 1, 0], ['fwd', 0, 1, 1], ['fwd', 0, 2, 2], ['bwdout', 0, 3, 3]]})
+    D.append({'deco': 'GW-mag', 'num': 3, 'ops': [['get', 0, None, None], ['get', 0, None, 0], ['get', 0, None, 0], ['get', None, 0, 0]]})
+    return D
+
+
+def deco_gen(rng):
+    name = DECO_NAMES[int(rng.integers(0, len(DECO_NAMES)))]
+    num = [1, 2, 3, 50][int(rng.integers(0, 4))]
+    n = int(rng.integers(3, 14))
+    ng = int(rng.integers(2, 7))
+    nw = int(rng.integers(1, 4))
+    ops = []
+    for _ in range(n):
+        u = rng.random()
+        j, w, seed = int(rng.integers(0, ng)), int(rng.integers(0, nw)), int(rng.integers(0, 1 << 30))
+        if u < 0.5:
+            ops.append(['fwd', j, w, seed])
+        elif u < 0.75:
+            ops.append(['bwdout', j, w, seed])
+        elif u < 0.9:
+            ops.append(['bwd', j, w, seed])
+        else:
+            c = [None, j][int(rng.integers(0, 2))], [None, int(rng.integers(0, ng))][int(rng.integers(0, 2))], [None, w][int(rng.integers(0, 4)) > 0]
+            ops.append(['get', c[0], c[1], c[2]])
+    return {'deco': name, 'num': num, 'ops': ops}
+
+
+def check_decorator(ctx):
+    import hcipy as hp
+    if not hasattr(hp, 'make_agnostic_optical_element'):
+        ctx.extra['make_agnostic_optical_element'] = 'not exported by this tree'
+        return
+    cases = deco_directed() + [deco_gen(ctx.rng) for _ in range(ctx.scale(150, 3000))]
+    all_lines, all_expect, owners = [], [], []
+    for case in cases:
+        try:
+            bad, lines, expect, issues, counts = run_deco(case)
+        except MachineryError:
+            raise
+        except Exception as e:
+            bad, lines, expect, issues, counts = [], [], [], ['history aborted by %r' % (e,)], {}
+        for k, v in counts.items():
+            ctx.count(k, v)
+        ctx.count('deco:' + case['deco'])
+        ctx.count('deco-num:%d' % case['num'])
+        seen = set()
+        for key, what, step in bad:
+            if key in seen:
+                continue
+            seen.add(key)
+            ctx.count('deco-finding:' + key.split(' ')[0] + (' (known)' if key == DECO_KNOWN else ''))
+            ctx.violation(key, what, dict(case, ops=case['ops'][:step + 1]))
+        if issues:
+            ctx.disagree('decorator-state', {'deco': case['deco'], 'num': case['num'], 'ops': case['ops'][:8], 'issue': issues[0]})
+        nontrivial = sum(1 for op in case['ops'] if op[0] != 'get') >= 2
+        ctx.case(None, nontrivial_key=('deco', case['deco'], case['num'], len(case['ops']), str(case['ops'][:3])) if nontrivial else None)
+        owners.append((case, len(all_lines), len(lines)))
+        all_lines += lines
+        all_expect += expect
+    out = ctx.model(all_lines)
+    for case, start, n in owners:
+        for k in range(n):
+            exp = all_expect[start + k]
+            if exp is None:
+                continue
+            ctx.traces_validated += 1
+            if out[start + k] != exp:
+                ctx.disagree('C05 decorator cache', {'deco': case['deco'], 'num': case['num'], 'ops': case['ops'][:k],
+                                                     'line': all_lines[start + k], 'code': exp, 'model': out[start + k]})
+                break
+
+
+def replay_deco(case):
+    bad, _, _, _, _ = run_deco(case)
+    for key, what, step in bad:
+        print('  fails:', key, '-', what)
+    return not bad
+
+
+# ---------------------------------------------------------------------------------------------
+# scratch state of the Fourier objects, state by state (models: Memo, Zoom in Model/Cache.lean; Fft.loadArray)
+
+DT_CODE = {'float32': 32, 'float64': 65, 'complex64': 64, 'complex128': 128}
+CPLX_TAG = {'complex128': 128, 'complex64': 64, 'float64': 128, 'float32': 64}
+
+
+def dt_code(dt):
+    return DT_CODE.get(np.dtype(dt).name, 0)
+
+
+def cplx_tag(dt):
+    return '-' if dt is None else str(np.dtype(dt).itemsize * 8)
+
+
+class FilterWatch:
+    """Observes FourierFilter._transfer_function / internal_array after every call (tags and the call at which each
+    was last rebuilt) and produces the model conversation `filt get …`."""
+
+    def __init__(self):
+        self.lines = ['C05 filt reset']
+        self.expect = [None]
+        self.calls = 0
+        self.tf = None
+        self.ia = None
+        self.tfgen = self.iagen = 0
+
+    def after(self, obj, field):
+        self.calls += 1
+        try:
+            tf, ia = obj._transfer_function, obj.internal_array
+            if tf is not self.tf:
+                self.tf, self.tfgen = tf, self.calls
+            if ia is not self.ia:
+                self.ia, self.iagen = ia, self.calls
+            order = ia.ndim - obj.internal_grid.ndim
+            exp = 'ok tf=%d tfgen=%d ia=%d/%d/[%s] iagen=%d' % (dt_code(tf.dtype), self.tfgen, ia.ndim, dt_code(ia.dtype),
+                                                               ','.join(str(int(x)) for x in ia.shape[:order]), self.iagen)
+        except Exception as e:
+            exp = 'unreadable: %r' % (e,)
+        self.lines.append('C05 filt get %d %d [%s]' % (dt_code(field.dtype), field.grid.ndim + field.tensor_order,
+                                                      ','.join(str(int(x)) for x in field.tensor_shape)))
+        self.expect.append(exp)
+
+
+class ZoomWatch:
+    def __init__(self):
+        self.lines = ['C05 zoom reset']
+        self.expect = [None]
+
+    def after(self, obj, back, dt):
+        try:
+            def one(lst):
+                tags = set(cplx_tag(c._current_dtype) for c in lst)
+                if len(tags) != 1:
+                    raise ValueError('the chirp-z transforms of one direction disagree: %r' % (tags,))
+                return tags.pop()
+            exp = 'ok val=%d tag=%s czt=%s inv=%s' % (CPLX_TAG[dt], cplx_tag(obj._current_dtype), one(obj.czts), one(obj.inv_czts))
+        except Exception as e:
+            exp = 'unreadable: %r' % (e,)
+        self.lines.append('C05 zoom call %d %d' % (1 if back else 0, CPLX_TAG[dt]))
+        self.expect.append(exp)
+
+
+def run_czt(ops):
+    """ops: [dtype, seed] on one shared ChirpZTransform(6, 9, w, a).  Returns (failure or None, lines, expect)."""
+    import hcipy as hp
+    mk = lambda: hp.ChirpZTransform(6, 9, np.exp(-0.25j), np.exp(0.125j))
+    shared = mk()
+    lines, expect = ['C05 memo reset'], [None]
+    for step, (dt, seed) in enumerate(ops):
+        r = np.random.default_rng(seed)
+        x = r.integers(-8, 9, size=(2, 6)) / 8.0
+        if dt.startswith('complex'):
+            x = x + 1j * r.integers(-8, 9, size=(2, 6)) / 8.0
+        x = x.astype(dt)
+        try:
+            r1, r2 = shared(x.copy()), mk()(x.copy())
+        except Exception as e:
+            return 'RAISES %s: step %d: %r' % (type(e).__name__, step, e), lines, expect
+        d = compare_values(r1, r2, 2e-4 if dt in ('complex64', 'float32') else 1e-9)
+        if d is None and r1.dtype != r2.dtype:
+            d = 'result dtypes differ'
+        if d:
+            return 'step %d (%s): %s' % (step, dt, d), lines, expect
+        try:
+            slot = cplx_tag(shared._current_dtype)
+        except Exception as e:
+            slot = 'unreadable: %r' % (e,)
+        lines.append('C05 memo get %d 0' % CPLX_TAG[dt])
+        expect.append('ok val=%d slot=%s' % (CPLX_TAG[dt], slot))
+    return None, lines, expect
+
+
+class _FftSpy:
+    """Stands in for a module's `_fft_module`: records (a copy of) what is handed to fftn / ifftn."""
+
+    def __init__(self, real):
+        self._real = real
+        self.seen = []
+
+    def fftn(self, x, *a, **k):
+        self.seen.append(np.array(x, copy=True))
+        return self._real.fftn(x, *a, **k)
+
+    def ifftn(self, x, *a, **k):
+        self.seen.append(np.array(x, copy=True))
+        return self._real.ifftn(x, *a, **k)
+
+    def __getattr__(self, n):
+        return getattr(self._real, n)
+
+
+def frac_list(xs):
+    from fractions import Fraction
+    out = []
+    for x in xs:
+        f = Fraction(float(x))
+        out.append(str(f.numerator) if f.denominator == 1 else '%d/%d' % (f.numerator, f.denominator))
+    return '[' + ','.join(out) + ']'
+
+
+def check_scratch_load(ctx):
+    """What FastFourierTransform / FourierFilter hand to the FFT (the internal array after `[:] = 0; [cutout] = field`)
+    against Fft.loadArray run by the driver on the previous contents of the buffer and the field (one-dimensional grids)."""
+    import hcipy as hp
+    import hcipy.fourier.fast_fourier_transform as m_fft
+    import hcipy.fourier.fourier_operations as m_op
+    lines, expect, where = [], [], []
+    n_obj = ctx.scale(12, 150)
+    for j in range(n_obj):
+        N = int(ctx.rng.integers(2, 10))
+        q = [1, 2, 3, 1.5, 2.5][int(ctx.rng.integers(0, 5))]
+        fov = [1, 0.5, 0.75][int(ctx.rng.integers(0, 3))]
+        use_filter = j % 3 == 2
+        grid = hp.CartesianGrid(hp.RegularCoords([0.25], [N], [-0.25 * (N // 2)]))
+        spy_fft, spy_op = _FftSpy(m_fft._fft_module), _FftSpy(m_op._fft_module)
+        keep = (m_fft._fft_module, m_op._fft_module)
+        try:
+            if use_filter:
+                obj = hp.FourierFilter(grid, lambda g: hp.Field(np.exp(-0.5j * g.x**2), g), q)
+            else:
+                obj = hp.FastFourierTransform(grid, q, fov, 0, False)
+            m_fft._fft_module, m_op._fft_module = spy_fft, spy_op
+            for step in range(int(ctx.rng.integers(2, 6))):
+                back = bool(ctx.rng.integers(0, 2))
+                src = grid if (use_filter or not back) else obj.output_grid
+                vals = ctx.rng.integers(-8, 9, size=src.size) / 8.0 + 1j * ctx.rng.integers(-8, 9, size=src.size) / 8.0
+                dt = 'complex64' if (use_filter and ctx.rng.random() < 0.4) else 'complex128'
+                field = hp.Field(vals.astype(dt), src)
+                if use_filter:
+                    obj._compute_functions(field)       # idempotent; allocates the buffer for this dtype if needed
+                    if obj.cutout is None:
+                        ctx.count('load:filter-no-padding')
+                        (obj.backward if back else obj.forward)(field)
+                        continue
+                if ctx.rng.random() < 0.3:              # arbitrary previous contents, as an earlier call may leave them
+                    junk = ctx.rng.integers(-8, 9, size=obj.internal_array.shape) / 4.0 - 1j * ctx.rng.integers(-8, 9, size=obj.internal_array.shape) / 2.0
+                    obj.internal_array[:] = junk
+                    ctx.count('load:poisoned-buffer')
+                buf = np.array(obj.internal_array, copy=True).ravel()
+                spy = spy_op if use_filter else spy_fft
+                del spy.seen[:]
+                (obj.backward if back else obj.forward)(field)
+                if not spy.seen:
+                    raise ValueError('no array reached the FFT module')
+                loaded = spy.seen[0].ravel()
+                if not use_filter:
+                    loaded = np.fft.fftshift(loaded)    # forward/backward ifftshift the array before the FFT
+                    f = (np.asarray(field).astype('complex128') / obj.shift_input) if back else np.asarray(field).astype('complex128')
+                else:
+                    f = np.asarray(field)
+                M = buf.size
+                ctx.count('load:%s N%sM' % ('filter' if use_filter else ('fft-bwd' if back else 'fft-fwd'), '=' if f.size == M else '<'))
+                for part in ('real', 'imag'):
+                    lines.append('C05 load %d %d %s %s' % (f.size, M, frac_list(getattr(buf, part)), frac_list(getattr(f, part))))
+                    expect.append('ok ' + frac_list(getattr(loaded, part)))
+                    where.append({'object': 'FourierFilter' if use_filter else 'FastFourierTransform', 'N': N, 'q': q, 'fov': fov,
+                                  'backward': back, 'part': part})
+        except Exception as e:
+            ctx.disagree('scratch-load', {'issue': 'cannot observe the array handed to the FFT: %r' % (e,), 'N': N, 'q': q, 'fov': fov})
+        finally:
+            m_fft._fft_module, m_op._fft_module = keep
+    out = ctx.model(lines)
+    for resp, exp, w in zip(out, expect, where):
+        ctx.traces_validated += 1
+        if resp != exp:
+            ctx.disagree('C05 scratch load', dict(w, code=exp, model=resp))
+            break
+
+
 # ---------------------------------------------------------------------------------------------
 
 def check_case(ctx, case, lines_out):
@@ -1064,7 +1671,7 @@ def compare_with_model(ctx, batch):
             ctx.traces_validated += 1
             m = parse_model(resp)
             diffs = []
-            for f in ('status', 'id', 'key', 'ver', 'num', 'cache'):
+            for f in ('status', 'id', 'key', 'ver', 'num', 'cache', 'slot', 'rebuilt', 'res'):
                 if f in exp and exp[f] != m.get(f):
                     diffs.append('%s: code %s model %s' % (f, exp[f], m.get(f)))
             if 'how' in m:
@@ -1157,12 +1764,20 @@ def run(ctx):
     nf = ctx.scale(8, 100)
     memo_lines = []
     memo_expect = []
-    for name in O:
-        for j in range(nf):
+    watchers = []
+    names = list(O) + random_fft_names(ctx.rng, ctx.scale(12, 150))
+    for name in names:
+        for j in range(nf if not name.startswith('FFT gen ') else max(2, nf // 3)):
             n = int(ctx.rng.integers(3, 10))
             ops = [[int(ctx.rng.integers(0, 2)), str(ctx.rng.choice(FDT)), list(FTS[int(ctx.rng.integers(0, len(FTS)))]),
                     int(ctx.rng.integers(0, 1 << 30))] for _ in range(n)]
-            bad, memo = run_fourier(name, ops)
+            if j == 0:
+                # directed: one component of the state changes at a time (tensor shape at equal order and precision; precision
+                # at equal shape; order; direction; real fields)
+                ops = [[0, 'complex128', [2], 1], [0, 'complex128', [3], 2], [1, 'complex64', [3], 3], [1, 'complex64', [2], 4],
+                       [0, 'complex64', [], 5], [0, 'complex128', [], 6], [1, 'complex128', [2, 2], 7], [0, 'float64', [2, 2], 8],
+                       [0, 'float32', [2], 9], [1, 'float32', [3], 10], [1, 'complex128', [3], 11], [0, 'complex64', [3], 12]]
+            bad, memo = run_fourier(name, ops, watchers)
             ctx.count('fourier:' + name.split(' ')[0])
             ctx.case(None, nontrivial_key=('fourier', name, j))
             if bad and bad.startswith('RAISES '):
@@ -1188,6 +1803,38 @@ def run(ctx):
         if resp != want:
             ctx.disagree('C05 memo', {'object': exp[2], 'code': want, 'model': resp})
             break
+    # FourierFilter (two cells with compound tags) and ZoomFastFourierTransform (a cell owning chirp-z cells), state by state
+    for w in watchers:
+        kind = type(w).__name__
+        ctx.count('fourier-state:' + kind)
+        out = ctx.model(w.lines)
+        for line, resp, exp in zip(w.lines, out, w.expect):
+            if exp is None:
+                continue
+            ctx.traces_validated += 1
+            if resp != exp:
+                ctx.disagree('C05 ' + kind, {'line': line, 'code': exp, 'model': resp, 'history': w.lines[:12]})
+                break
+    # ChirpZTransform used directly: _current_dtype against the memo cell; results against fresh objects
+    for j in range(ctx.scale(20, 300)):
+        ops = [[str(ctx.rng.choice(FDT)), int(ctx.rng.integers(0, 1 << 30))] for _ in range(int(ctx.rng.integers(3, 9)))]
+        bad, lines, expect = run_czt(ops)
+        ctx.count('fourier:CZT')
+        ctx.case(None, nontrivial_key=('czt', j))
+        if bad and bad.startswith('RAISES '):
+            ctx.violation('raises %s CZT' % bad.split(' ')[1].rstrip(':'), 'ChirpZTransform: ' + bad, {'czt': ops})
+        elif bad:
+            ctx.violation('fourier-history CZT', 'ChirpZTransform: ' + bad, {'czt': ops})
+        out = ctx.model(lines)
+        for line, resp, exp in zip(lines, out, expect):
+            if exp is None:
+                continue
+            ctx.traces_validated += 1
+            if resp != exp:
+                ctx.disagree('C05 memo', {'object': 'ChirpZTransform', 'line': line, 'code': exp, 'model': resp})
+                break
+    check_scratch_load(ctx)
+    check_decorator(ctx)
 
 
 def replay(ctx, case):
@@ -1197,6 +1844,13 @@ def replay(ctx, case):
         except Exception as e:
             print('  fails: raises %r' % (e,))
             return False
+    if 'deco' in case:
+        return replay_deco(case)
+    if 'czt' in case:
+        bad, _, _ = run_czt(case['czt'])
+        if bad:
+            print('  fails:', bad)
+        return not bad
     if 'fourier' in case:
         bad, _ = run_fourier(case['fourier'], case['ops'])
         if bad:
